@@ -516,4 +516,9 @@ HARNESSES = [
             stubs=["NumbersUUID(...).hex and table_uuids_to_id: identity on the stub table id"],
             patches=[(modelmod, "NumbersUUID", NumbersUUIDStub)]),
 ]
+# which prefix a reference needs depends on the set of table names: adding a table (real model.add_table) must invalidate
+# the name cache - the clone harness is shared with C03
+from specs import c03 as _c03   # noqa: E402
+
+HARNESSES += [h for h in _c03.HARNESSES if h.name == "H03-clone"]
 PROPERTY = "C09"
